@@ -160,6 +160,53 @@ pub fn check_convert(rep: &mut Rep, w: &World, ca: i128, sa: TimeScale, cb: i128
     }
 }
 
+/// `Ord::clamp` (and whatever else the standard library derives from the order) answers the chronological question too:
+/// x.clamp(lo, hi) is lo when x is earlier than lo, hi when it is later than hi, x itself otherwise - whatever the scales.
+pub fn check_clamp(rep: &mut Rep, w: &World, x: (i128, TimeScale), p: (i128, TimeScale), q: (i128, TimeScale)) {
+    let t = |v: (i128, TimeScale)| w.to_tai(v.0, v.1);
+    let (lo, hi) = if t(p) <= t(q) { (p, q) } else { (q, p) };
+    let (tx, tlo, thi) = (t(x), t(lo), t(hi));
+    let mixed = !(x.1 == lo.1 && lo.1 == hi.1);
+    let lossy = mixed && (is_dyn(x.1) || is_dyn(lo.1) || is_dyn(hi.1));
+    if lossy && ((tx - tlo).abs() <= 100 || (tx - thi).abs() <= 100 || (tlo - thi).abs() <= 100) {
+        return;
+    }
+    let utc_mixed = mixed && (x.1 == TimeScale::UTC || lo.1 == TimeScale::UTC || hi.1 == TimeScale::UTC);
+    if utc_mixed && [tx, tlo, thi].iter().any(|&v| w.in_f12b_window(v) || w.from_tai(v, TimeScale::UTC).is_none() || (lossy && w.near_utc_discontinuity(v, 100))) {
+        return;
+    }
+    if !rep.tick() {
+        return;
+    }
+    rep.class("clamp");
+    if mixed {
+        rep.class("clamp/mixed-scales");
+    }
+    let want = if tx < tlo { lo } else if tx > thi { hi } else { x };
+    let (ex, elo, ehi) = (ep(x.0, x.1), ep(lo.0, lo.1), ep(hi.0, hi.1));
+    match guard(|| (ex.clamp(elo, ehi), std::cmp::max(elo, std::cmp::min(ex, ehi)), ex.max(elo).min(ehi), [elo, ex, ehi].into_iter().max(), [ehi, ex, elo].into_iter().min(), [ex, elo, ehi].iter().max_by(|a, b| a.cmp(b)).copied(), [ex, ehi, elo].iter().min_by_key(|e| **e).copied())) {
+        Err(pn) => rep.fail(&format!("clamp/panic/{}", pn.class()), None, || format!("clamp of ({},{:?}) to [({},{:?}), ({},{:?})] panicked: {} at {}", x.0, x.1, lo.0, lo.1, hi.0, hi.1, pn.msg, pn.loc)),
+        Ok((c, c2, c3, mx, mn, mxb, mnk)) => {
+            let inst = |e: Epoch| w.to_tai(count_d(e.duration), e.time_scale);
+            let tw = t(want);
+            let tol = if lossy { 100 } else { 0 };
+            for (name, got) in [("clamp", c), ("max(lo, min(x, hi))", c2), ("x.max(lo).min(hi)", c3)] {
+                if (inst(got) - tw).abs() > tol {
+                    rep.fail("clamp/value", None, || format!("({},{:?}).{name} with lo = ({},{:?}), hi = ({},{:?}) returned ({},{:?}) [TAI {}], chronologically it is ({},{:?}) [TAI {}] (x at TAI {}, lo {}, hi {})", x.0, x.1, lo.0, lo.1, hi.0, hi.1, count_d(got.duration), got.time_scale, inst(got), want.0, want.1, tw, tx, tlo, thi));
+                }
+            }
+            let (tmax, tmin) = (tx.max(thi), tx.min(tlo));
+            for (name, got, wv) in [("Iterator::max", mx, tmax), ("Iterator::max_by(cmp)", mxb, tmax), ("Iterator::min", mn, tmin), ("Iterator::min_by_key", mnk, tmin)] {
+                if let Some(g) = got {
+                    if (inst(g) - wv).abs() > tol {
+                        rep.fail("clamp/iterator-extremum", None, || format!("{name} of x = ({},{:?}), lo = ({},{:?}), hi = ({},{:?}) is at TAI {}, chronologically {}", x.0, x.1, lo.0, lo.1, hi.0, hi.1, inst(g), wv));
+                    }
+                }
+            }
+        }
+    }
+}
+
 pub fn check_sort(rep: &mut Rep, w: &World, v: Vec<(i128, TimeScale)>) {
     if !rep.tick() {
         return;
@@ -167,6 +214,46 @@ pub fn check_sort(rep: &mut Rep, w: &World, v: Vec<(i128, TimeScale)>) {
     rep.class("sort/vector");
     let es: Vec<Epoch> = v.iter().map(|(c, s)| ep(*c, *s)).collect();
     let n = es.len();
+    // everything else the standard library builds on the order of epochs sees the same chronology
+    {
+        let es2 = es.clone();
+        let inst = |e: &Epoch| w.to_tai(count_d(e.duration), e.time_scale);
+        match guard(move || {
+            let mut u = es2.clone();
+            u.sort_unstable();
+            let mut pc = es2.clone();
+            pc.sort_by(|a, b| a.partial_cmp(b).unwrap());
+            let set: std::collections::BTreeSet<Epoch> = es2.iter().copied().collect();
+            let mut st = es2.clone();
+            st.sort();
+            let found: Vec<bool> = es2.iter().map(|e| st.binary_search(e).map(|i| st[i] == *e).unwrap_or(false)).collect();
+            (u, pc, set.into_iter().collect::<Vec<_>>(), found, es2.iter().copied().max(), es2.iter().copied().min())
+        }) {
+            Err(p) => rep.fail(&format!("sort/panic/{}", p.class()), None, || format!("ordering {n} epochs through the standard library panicked: {} at {}", p.msg, p.loc)),
+            Ok((u, pc, set, found, mx, mn)) => {
+                let mut want: Vec<i128> = v.iter().map(|(c, s)| w.to_tai(*c, *s)).collect();
+                want.sort();
+                for (name, got) in [("sort_unstable", &u), ("sort_by(partial_cmp)", &pc)] {
+                    let g: Vec<i128> = got.iter().map(&inst).collect();
+                    if g != want {
+                        rep.fail("sort/std-consumer", None, || format!("{name} of {n} epochs is not the chronological order"));
+                    }
+                }
+                let mut uniq = want.clone();
+                uniq.dedup();
+                let g: Vec<i128> = set.iter().map(&inst).collect();
+                if g != uniq {
+                    rep.fail("sort/std-consumer", None, || format!("a BTreeSet of {n} epochs iterates {} instants, want the {} distinct ones in chronological order", g.len(), uniq.len()));
+                }
+                if found.iter().any(|f| !f) {
+                    rep.fail("sort/std-consumer", None, || format!("binary_search in the sorted vector of {n} epochs does not find one of its own elements"));
+                }
+                if mx.map(|e| inst(&e)) != want.last().copied() || mn.map(|e| inst(&e)) != want.first().copied() {
+                    rep.fail("sort/std-consumer", None, || format!("Iterator::max / min of {n} epochs are not the latest / earliest instant"));
+                }
+            }
+        }
+    }
     match guard(move || {
         let mut x = es;
         x.sort();
@@ -283,6 +370,10 @@ pub fn run(cfg: &Cfg, rep: &mut Rep) {
             if let Some(cc) = w.from_tai(w.to_tai(ca, sa) + r.range_i64(-300, 300) as i128, sc) {
                 check_pair(rep, &w, cb, sb, cc, sc);
                 check_pair(rep, &w, ca, sa, cc, sc);
+                // each of the three clamped to the window the other two span
+                check_clamp(rep, &w, (ca, sa), (cb, sb), (cc, sc));
+                check_clamp(rep, &w, (cb, sb), (ca, sa), (cc, sc));
+                check_clamp(rep, &w, (cc, sc), (ca, sa), (cb, sb));
             }
         }
         if k % 1024 == 0 {
